@@ -7,7 +7,10 @@
 (* kind  : "plain" | "foreign" (any other type exposing TypeId() and       *)
 (*         Error()) | "application" | "transport" | "protocol" |           *)
 (*         "fmtwrap" (a standard-library wrapper such as                   *)
-(*         fmt.Errorf("ctx: %w", cause): no type id, own text, Unwrap)     *)
+(*         fmt.Errorf("ctx: %w", cause): no type id, own text, Unwrap) |   *)
+(*         "uncmp" (a plain error whose dynamic type is not comparable,    *)
+(*         e.g. a slice type such as go/scanner.ErrorList: errors.Is never *)
+(*         identifies it by ==, and nothing may panic on it)               *)
 (* tid   : type id (0 for plain)       msg : the stored message            *)
 (* text  : what Error() returns for plain / foreign errors (for the three  *)
 (*         exception kinds it is derived: ErrorText)                       *)
@@ -49,8 +52,9 @@ Wrap(e) == IF e.kind = "protocol" THEN e
 \* Unwrap()
 Unwrap(e) == IF e.kind \in {"protocol", "fmtwrap"} THEN e.cause ELSE NoErr
 
-\* Go identity: same allocation
-Same(a, b) == IsErr(a) /\ IsErr(b) /\ a.uid # 0 /\ a.uid = b.uid
+\* Go identity: same allocation -- as far as errors.Is can see it: values of uncomparable types are never compared
+Comparable(e) == e.kind # "uncmp"
+Same(a, b) == IsErr(a) /\ IsErr(b) /\ a.uid # 0 /\ a.uid = b.uid /\ Comparable(a) /\ Comparable(b)
 
 \* errors.Is(x, target) following the standard library's chain walk with ProtocolException.Is
 RECURSIVE ErrorsIs(_, _)
